@@ -1,4 +1,6 @@
-"""Runs registered checks against the seeded changes under /verif/seeded/<id>/ (applies patch.diff to /repo, runs, reverts).
+"""Runs registered checks against the seeded changes under /verif/seeded/<id>/: applies patch.diff to a scratch worktree of /repo
+(/tmp/sdsv-wt/VERIFY, at /repo's HEAD), runs the checks with VERIF_SRC pointing there, and reverts.  --benign does the same for
+/verif/benign/*.patch (expected: every check exits 0).
 
 usage: seedcheck.py [seed ids ...] [--checks C03,C04 | --all-checks]
 Writes seeded/<id>/result.json and seeded/README.md.  /repo is always restored (git checkout -- .).
@@ -14,6 +16,7 @@ from pathlib import Path
 V = Path(__file__).resolve().parent.parent
 SEEDED = V / "seeded"
 REPO = "/repo"
+WT = "/tmp/sdsv-wt/VERIFY"       # scratch worktree the patches are applied to (never /repo while sub-agents read it)
 PY = "/venv/bin/python"
 
 
@@ -22,7 +25,7 @@ def sh(cmd, **kw):
 
 
 def run_check(prop: str) -> dict:
-    p = sh([PY, str(V / "harness" / "check.py"), prop, "--tier", "quick"], cwd=str(V), env=dict(os.environ, VERIF_TIER="quick"))
+    p = sh([PY, str(V / "harness" / "check.py"), prop, "--tier", "quick"], cwd=str(V), env=dict(os.environ, VERIF_TIER="quick", VERIF_SRC=WT + "/src"))
     sigs = []
     lines = p.stdout.splitlines()
     for i, ln in enumerate(lines):
@@ -33,26 +36,52 @@ def run_check(prop: str) -> dict:
     return {"rc": p.returncode, "violations": sigs[:12], "machinery": mach[:2]}
 
 
+def benign():
+    props = [json.loads(l)["id"] for l in open(V / "properties.jsonl")]
+    only = next((a.split("=", 1)[1].split(",") for a in sys.argv[1:] if a.startswith("--checks=")), props)
+    if not os.path.isdir(WT):
+        sh(["git", "-C", REPO, "worktree", "add", "-q", WT, "HEAD"])
+    sh(["git", "-C", WT, "checkout", "-q", "--", "."])
+    sh(["git", "-C", WT, "checkout", "-q", "--detach", sh(["git", "-C", REPO, "rev-parse", "HEAD"]).stdout.strip()])
+    out = {}
+    for pf in sorted((V / "benign").glob("*.patch")):
+        if sh(["git", "-C", WT, "apply", str(pf)]).returncode != 0:
+            print(pf.name, "does not apply")
+            continue
+        try:
+            res = {c: run_check(c) for c in only}
+        finally:
+            sh(["git", "-C", WT, "checkout", "--", "."])
+        out[pf.stem] = {c: r for c, r in res.items() if r["rc"] != 0}
+        print(pf.stem, "alarms:", {c: (r["rc"], r["violations"][:2], r["machinery"][:1]) for c, r in out[pf.stem].items()})
+    (V / "benign" / "result.json").write_text(json.dumps(out, indent=1, sort_keys=True))
+
+
 def main():
+    if "--benign" in sys.argv:
+        return benign()
     args = [a for a in sys.argv[1:] if not a.startswith("--")]
     checks_opt = next((a.split("=", 1)[1] for a in sys.argv[1:] if a.startswith("--checks=")), None)
     all_checks = "--all-checks" in sys.argv
     props = [json.loads(l)["id"] for l in open(V / "properties.jsonl")]
     seeds = args or sorted(d.name for d in SEEDED.iterdir() if (d / "patch.diff").exists())
-    assert sh(["git", "-C", REPO, "status", "--porcelain", "--untracked-files=no"]).stdout.strip() == "", "/repo has uncommitted changes"
+    if not os.path.isdir(WT):
+        sh(["git", "-C", REPO, "worktree", "add", "-q", WT, "HEAD"])
+    sh(["git", "-C", WT, "checkout", "-q", "--", "."])
+    sh(["git", "-C", WT, "checkout", "-q", "--detach", sh(["git", "-C", REPO, "rev-parse", "HEAD"]).stdout.strip()])
     for sid in seeds:
         d = SEEDED / sid
         meta = json.loads((d / "meta.json").read_text())
         target = meta["property"]
         checks = props if all_checks else (checks_opt.split(",") if checks_opt else [target])
-        ap = sh(["git", "-C", REPO, "apply", str(d / "patch.diff")])
+        ap = sh(["git", "-C", WT, "apply", str(d / "patch.diff")])
         if ap.returncode != 0:
             print(sid, "patch does not apply:", ap.stderr[:300])
             continue
         try:
             res = {c: run_check(c) for c in checks}
         finally:
-            sh(["git", "-C", REPO, "checkout", "--", "."])
+            sh(["git", "-C", WT, "checkout", "--", "."])
         old = json.loads((d / "result.json").read_text()) if (d / "result.json").exists() else {}
         old.update(res)
         (d / "result.json").write_text(json.dumps(old, indent=1, sort_keys=True))
